@@ -278,14 +278,14 @@ CLAIMS = {
         'schema without references built from such nodes and from scalar nodes with an `or` rule over built-in types and rule-sets (anyOf) under arrays (items as anyOf, item counts, empty array closed) and objects '
         '(properties, required, additionalProperties false / any / a type name) every value the schema accepts, in particular its own '
         'example, is valid against the converted Schema Object (C08_tree_sound, C08_example_valid). References (a value written as a type '
-        'name, additionalProperties naming a type) are in the model too (Model/OasRef.v): given the registered types, every value a schema '
+        'name, a type choice, a scalar with type: "@name", type names among the alternatives of `or`, additionalProperties naming a type) are in the model too (Model/OasRef.v): given the registered types, every value a schema '
         'accepts - a reference accepts what its type accepts, by a derivation of any height, so recursive types are covered - is valid '
         'against the converted schema with $ref resolved in the components (C08_ref_sound); the example of a schema whose references are '
         'not recursive is such a value (C08_ref_example_valid). additionalProperties is modelled for every type name of the vocabulary. The '
         'whole emitted Schema Object is compared with the model on scalar nodes at the edges of every rule and on random trees with references.',
    note='Trusted: Coq kernel; the validator (jsonschema 4.26, formats not enforced, 2000-digit decimal context) and the well-formedness rules in '
         'lib/oracles/oas_validate.py; the C01 oracle for "still accepted"; harness; `inst` (the values a schema accepts) is the documented meaning '
-        'of a JSight schema, not code of this library. Outside the model (validator only): type names as `or` alternatives, `type: "@t"` on a literal, key shortcuts, '
+        'of a JSight schema, not code of this library. Outside the model (validator only): key shortcuts, '
         'allOf, the cut-off of Example() on recursive types (C06 model), formats and patterns. Known finding F08b (allOf next to additionalProperties: false) is pinned by the existing tests and '
         'not repaired; F08c (multipleOf in float64) was found by this tie and repaired. No axioms.',
    technique='Coq soundness theorems of the schema->Schema Object translation (scalar nodes in full, trees with references to registered types) tied by correspondence + translation validation by an independent validator',
